@@ -115,9 +115,11 @@ pub fn parse_info(line: &str, need_time: bool) -> Result<Info, String> {
     while i < t.len() && t[i] != "depth" {
         let m = t[i];
         let b = m.as_bytes();
-        let ok = b.len() == 4 && (b'a'..=b'h').contains(&b[0]) && (b'1'..=b'8').contains(&b[1]) && (b'a'..=b'h').contains(&b[2]) && (b'1'..=b'8').contains(&b[3]);
+        // a from-to square pair; a promotion letter may follow (the engine prints none, a UCI
+        // move may carry one)
+        let ok = (b.len() == 4 || (b.len() == 5 && b"qrbn".contains(&b[4]))) && (b'a'..=b'h').contains(&b[0]) && (b'1'..=b'8').contains(&b[1]) && (b'a'..=b'h').contains(&b[2]) && (b'1'..=b'8').contains(&b[3]);
         if !ok {
-            return Err(format!("pv token {:?} is not a from-to square pair", m));
+            return Err(format!("pv token {:?} is not a move in long algebraic notation", m));
         }
         pv.push(m.to_string());
         i += 1;
